@@ -118,6 +118,12 @@ func main() {
 		// real sync.Pool is then deterministic.
 		runtime.GOMAXPROCS(1)
 		debug.SetGCPercent(-1)
+		// Safety valve, never reached on the pinned tree: with the collector
+		// off a modified library that allocates per operation could exhaust
+		// the machine in a marathon run. Near the limit the runtime collects
+		// after all (the real pool then loses its contents at a moment the
+		// tape did not choose; nothing else depends on it).
+		debug.SetMemoryLimit(4 << 30)
 	}
 	go func() {
 		// A process that makes no scheduler step for three minutes hangs (a
@@ -217,9 +223,21 @@ func main() {
 			}
 			viol = rv
 		}
-		if sim.Deadlocked != "" && viol == nil {
+		if sim.LibPanicked && viol != nil && viol.Class != "data-race" {
+			viol = nil // what the abandoned tasks had recorded is not a verdict
+		}
+		if sim.Deadlocked != "" && viol == nil && !sim.LibPanicked {
 			out.Flush()
 			fmt.Fprintln(os.Stderr, sim.Deadlocked)
+			if os.Getenv("VERIF_DEBUG_DEADLOCK") != "" { // development aid: the end of the trace
+				tr := sim.RenderTrace()
+				if len(tr) > 120 {
+					tr = tr[len(tr)-120:]
+				}
+				for _, l := range tr {
+					fmt.Fprintln(os.Stderr, "  |", l)
+				}
+			}
 			os.Exit(2)
 		}
 		for i := range counters {
